@@ -39,6 +39,8 @@ TRUSTED = [
     "harness/epr.py: InProcConnection decodes the serialized host messages and drives the executor in-process",
 ]
 ASSUMPTIONS = [
+    "API objects may be reused: one EPRSocket object attached to several connections (successively or alive "
+    "at once); the remote node id must be the one of the CURRENT connection's network",
     "the network stack assigns purpose ids as a function of (remote node id, local socket id); the harness stack "
     "uses remote*1000+socket (injective per remote); scenarios use equal and different local socket ids "
     "towards two remote nodes",
@@ -193,6 +195,12 @@ def run(ctx):
     for c in hw_cases:
         res.evaluations += 1
         _check_hw(ctx, res, H, c)
+    # ---- API objects reused across connections: one EPRSocket object on several connections (successive
+    # or alive at once) whose networks place the remote party on different nodes
+    for _ in range(1200 if ctx.thorough else 250):
+        rc = H.gen_reuse_case(rng)
+        res.evaluations += 1
+        _check_reuse(res, H, rc)
     # ---- the qlink-interface 1.0 compatibility layer, field by field, on random objects
     _check_qlink_layer(ctx, res, H, rng, 1500 if ctx.thorough else 300)
     # ---- direct streams: serialize_request and _get_create_request on wider / malformed inputs
@@ -333,6 +341,23 @@ def _check_qlink_layer(ctx, res, H, rng, n):
                 break
 
 
+def _check_reuse(res, H, rc):
+    out = H.run_reuse_case(rc)
+    inp = {"reuse_case": rc}
+    res.count("socket-reuse:%d-connections" % len(rc["phases"]))
+    if out["raised"]:
+        res.failures.append({"what": "socket reused on a second connection: raised " + out["raised"], "kf": None,
+                             "input": inp})
+        return out
+    res.nontrivial.add(json.dumps(rc, sort_keys=True))
+    bad = [(w, g, x) for w, g, x in out["checks"] if g != x]
+    if bad:
+        w, g, x = bad[0]
+        res.failures.append({"what": "%s: got %s, the current network/request says %s" % (w, g, x), "kf": None,
+                             "input": {**inp, "mismatches": [list(map(str, b)) for b in bad[:6]]}})
+    return out
+
+
 def _check_hw(ctx, res, H, c):
     inp = {"hw_case": c}
     res.count("hw:%s/%s/%s%s" % (c["hw"], c["role"], c["tp"], "/seq" if c["sequential"] and c["tp"] == "K" else ""))
@@ -409,6 +434,12 @@ def replay(ctx, payload):
         res = Result()
         _check_qlink_layer(ctx, res, H, ctx.rng, 300)
         for f in res.failures[:3]:
+            print("FAIL:", f["what"])
+        return 1 if res.failures else 0
+    if "reuse_case" in inp:
+        res = Result()
+        _check_reuse(res, H, inp["reuse_case"])
+        for f in res.failures:
             print("FAIL:", f["what"])
         return 1 if res.failures else 0
     if "hw_case" in inp:
